@@ -24,6 +24,7 @@ import (
 	"sort"
 	"strconv"
 	"strings"
+	"sync"
 	"syscall"
 	"time"
 
@@ -243,13 +244,13 @@ func (s *sleeper) kill() {
 const principalName = "ops-bot"
 
 type fixture struct {
-	exe            string
-	root           string
-	healthyAddr    string
-	unhealthyAddr  string
-	templateDB     []byte
-	templateDump   string
-	closers        []io.Closer
+	exe           string
+	root          string
+	healthyAddr   string
+	unhealthyAddr string
+	templateDB    []byte
+	templateDump  string
+	closers       []io.Closer
 }
 
 func healthListener(status int) (string, io.Closer, error) {
@@ -451,15 +452,78 @@ func validConfig(text []byte) bool {
 // ---- worker directory --------------------------------------------------------------------------------
 
 type worker struct {
-	fx        *fixture
-	dir       string
-	cfgPath   string
-	dbPath    string
-	pidPath   string
-	logPath   string
-	foreign   string // an existing foreign config file
-	baseCfg   string
-	sl        *sleeper
+	fx      *fixture
+	dir     string
+	cfgPath string
+	dbPath  string
+	pidPath string
+	logPath string
+	foreign string // an existing foreign config file
+	baseCfg string
+	sl      *sleeper
+	rec     *recorder
+}
+
+// recorder is a per-worker stand-in for the Admin API (admin-proxy mode of the queue tools): it records
+// every request and answers 200 with a generic JSON body.
+type recorder struct {
+	addr string
+	srv  io.Closer
+	mu   sync.Mutex
+	reqs []string
+}
+
+func newRecorder() (*recorder, error) {
+	ln, err := net.Listen("tcp", "127.0.0.1:0")
+	if err != nil {
+		return nil, err
+	}
+	rec := &recorder{addr: ln.Addr().String()}
+	srv := &http.Server{Handler: http.HandlerFunc(func(w http.ResponseWriter, r *http.Request) {
+		io.Copy(io.Discard, r.Body)
+		rec.mu.Lock()
+		rec.reqs = append(rec.reqs, r.Method+" "+r.URL.Path)
+		rec.mu.Unlock()
+		w.Header().Set("Connection", "close")
+		w.Header().Set("Content-Type", "application/json")
+		io.WriteString(w, `{"items":[],"canceled":1,"requeued":1,"resumed":1,"deleted":1,"published":1,"matched":1,"preview_only":false}`)
+	})}
+	rec.srv = srv
+	go srv.Serve(ln)
+	return rec, nil
+}
+
+func (r *recorder) take() []string {
+	r.mu.Lock()
+	defer r.mu.Unlock()
+	out := r.reqs
+	r.reqs = nil
+	return out
+}
+
+// memoryBackendConfig: every route on the memory backend, so the queue tools proxy the Admin API at adminAddr.
+func memoryBackendConfig(adminAddr string) string {
+	return fmt.Sprintf(`ingress { listen "127.0.0.1:18080" }
+pull_api {
+  listen "127.0.0.1:19443"
+  auth token "raw:pulltoken"
+}
+admin_api { listen %q }
+"/r" {
+  queue { backend "memory" }
+  pull { path "/e" }
+}
+"/m" {
+  queue { backend "memory" }
+  application "app1"
+  endpoint_name "ep1"
+  pull { path "/em" }
+}
+"/free" {
+  queue { backend "memory" }
+  pull { path "/ef" }
+}
+`, adminAddr)
 }
 
 func newWorker(fx *fixture, i int) (*worker, error) {
@@ -472,10 +536,19 @@ func newWorker(fx *fixture, i int) (*worker, error) {
 		pidPath: filepath.Join(dir, "hookaido.pid"), logPath: filepath.Join(dir, "runtime.log"),
 		foreign: filepath.Join(dir, "foreign", "Hookaidofile")}
 	w.baseCfg = fx.configText(dir, fx.healthyAddr, "")
+	rec, err := newRecorder()
+	if err != nil {
+		return nil, err
+	}
+	w.rec = rec
 	return w, nil
 }
 
 func (w *worker) close() {
+	if w.rec != nil {
+		w.rec.srv.Close()
+		w.rec = nil
+	}
 	if w.sl != nil {
 		w.sl.kill()
 		w.sl = nil
@@ -661,17 +734,17 @@ func readFrames(b []byte) ([]map[string]any, error) {
 }
 
 type sessionResult struct {
-	ServeErr  string
-	ProtoErr  string
-	Listed    []string
-	Schemas   map[string]map[string]any // tool -> inputSchema.properties
-	RPCError  bool                      // tools/call answered with a JSON-RPC error object
-	IsError   bool                      // tools/call result carries isError:true
+	ServeErr   string
+	ProtoErr   string
+	Listed     []string
+	Schemas    map[string]map[string]any // tool -> inputSchema.properties
+	RPCError   bool                      // tools/call answered with a JSON-RPC error object
+	IsError    bool                      // tools/call result carries isError:true
 	Structured map[string]any
-	AuditRaw  string
-	Audit     []map[string]any
-	AuditBad  int // audit lines that are not JSON objects
-	Calls     []string // per tools/call: "ok" | "isError" | "rpc-error"
+	AuditRaw   string
+	Audit      []map[string]any
+	AuditBad   int      // audit lines that are not JSON objects
+	Calls      []string // per tools/call: "ok" | "isError" | "rpc-error"
 }
 
 func (s *sessionResult) refused() bool { return s.RPCError || s.IsError }
